@@ -1,7 +1,7 @@
 (* Properties_C11.v — C11: comparisons and conversions agree with exact arithmetic.
    A double is its IEEE-754 bit pattern, its value the exact dyadic.  Statements only. *)
 From Coq Require Import ZArith List Bool.
-From Mpir Require Import Word Limbs MpnBasicDefs MpzDefs ConvDefs MpqDefs ConvProofs.
+From Mpir Require Import Word Limbs MpnBasicDefs MpzDefs ConvDefs MpqDefs ConvProofs GetDDefs GetDProofs.
 Import ListNotations.
 Local Open Scope Z_scope.
 
@@ -70,6 +70,53 @@ Theorem C11_get_d_truncates : forall z, z <> 0 ->
   /\ (1024 <= Z.log2 (Z.abs z) -> decode_double (mpz_get_d z) = DInf (z <? 0)).
 Proof. exact get_d_truncates. Qed.
 Print Assumptions C11_get_d_truncates.
+
+
+(* ---- the conversions to and from double AS CODED, at bit level (GetDDefs.v: the IEEE union path of mpn_get_d with its shifts,
+   masks, the LONG_MAX overflow guard, denormal and underflow branches; mpz_get_d, mpz_get_d_2exp; __gmp_extract_double with its
+   denormal loop and mpz_set_d; mpq_get_d with its choice of quotient length, padding / chopping and truncating division) are the
+   value-level functions above, for every input ---- *)
+Theorem C11_mpn_get_d_as_coded : forall l sign exp, wf l -> l <> [] -> last l 0 <> 0 -> len l < 2 ^ 57 -> - 2 ^ 63 <= exp < 2 ^ 63 ->
+  mpn_get_d_c l (len l) sign exp = get_d_bits (eval l) (sign <? 0) exp.
+Proof. exact mpn_get_d_c_correct. Qed.
+Print Assumptions C11_mpn_get_d_as_coded.
+
+Theorem C11_mpz_get_d_as_coded : forall z, mpz_wf z -> len (d z) < 2 ^ 57 -> mpz_get_d_c z = ConvDefs.mpz_get_d (value z).
+Proof. exact mpz_get_d_c_correct. Qed.
+Print Assumptions C11_mpz_get_d_as_coded.
+
+Theorem C11_mpz_get_d_2exp_as_coded : forall z, mpz_wf z -> len (d z) < 2 ^ 57 -> mpz_get_d_2exp_c z = ConvDefs.mpz_get_d_2exp (value z).
+Proof. exact mpz_get_d_2exp_c_correct. Qed.
+Print Assumptions C11_mpz_get_d_2exp_as_coded.
+
+(* the exact decomposition of a finite double into two limbs and a limb exponent, denormals included *)
+Theorem C11_extract_double_as_coded : forall bits m e, 0 <= bits < 2 ^ 63 -> decode_double bits = DFin false m e ->
+  (m = 0 -> extract_double_c bits = ([0; 0], 0))
+  /\ (m <> 0 -> exists lo hi rn u, extract_double_c bits = ([lo; hi], rn) /\ limb lo /\ limb hi /\ hi <> 0 /\ 0 <= u
+                 /\ eval [lo; hi] = m * 2 ^ u /\ e = 64 * (rn - 2) + u).
+Proof. exact extract_double_c_correct. Qed.
+Print Assumptions C11_extract_double_as_coded.
+
+Theorem C11_mpz_set_d_as_coded : forall bits, 0 <= bits < 2 ^ 64 ->
+  match ConvDefs.mpz_set_d bits, mpz_set_d_c bits with
+  | COk t, COk z => value z = t /\ mpz_wf z
+  | Invalid, Invalid => True
+  | _, _ => False
+  end.
+Proof. exact mpz_set_d_c_correct. Qed.
+Print Assumptions C11_mpz_set_d_as_coded.
+
+(* mpq_get_d: for every numerator and positive denominator (canonical or not) the result is the exact quotient truncated toward zero *)
+Theorem C11_mpq_get_d_as_coded : forall num den, mpz_wf num -> mpz_wf den -> 0 < sz den -> len (d num) < 2 ^ 56 -> len (d den) < 2 ^ 56 ->
+  mpq_get_d_c num den = ConvDefs.mpq_get_d (value num) (value den).
+Proof. exact mpq_get_d_c_correct. Qed.
+Print Assumptions C11_mpq_get_d_as_coded.
+
+Theorem C11_mpq_get_d_truncates : forall num den a, mpz_wf num -> mpz_wf den -> 0 < sz den -> len (d num) < 2 ^ 56 -> len (d den) < 2 ^ 56 ->
+  value num <> 0 -> 2 ^ 52 <= qfl (Z.abs (value num)) (value den) a ->
+  mpq_get_d_c num den = get_d_bits (qfl (Z.abs (value num)) (value den) a) (value num <? 0) (- a).
+Proof. exact mpq_get_d_c_truncates. Qed.
+Print Assumptions C11_mpq_get_d_truncates.
 
 Example C11_nonvacuous :
   decode_double 4607182418800017408 = DFin false (2 ^ 52) (-52)        (* 1.0 *)
